@@ -1,4 +1,4 @@
-"""C30 — distance computations are exact (point-point and point-segment kernels, symbolic coordinates)."""
+"""C30 — distance computations are exact (point-point, point-segment and segment-segment kernels)."""
 from __future__ import annotations
 
 import numpy as np
@@ -20,7 +20,9 @@ META = {
                     "2-d: 1 x 1, 1 x 2 and 2 x 1 points x segments; 3-d: one point and one segment (for larger configurations z3 did not return)"],
     "stubs": ["np.sqrt(x) / x ** 0.5: |t| when x is syntactically t*t, otherwise fresh r >= 0 with r*r == x",
               "np.ma comparisons of symbolic arrays: decided per element (forks)"],
-    "outside": ["segment_segment_set, segment_set, points_polygon, segments_polygon, segment_overlap_segment_set "
+    "outside": ["segment_segment_set with symbolic DIRECTIONS (directions are enumerated: SEG_DIRS; positions symbolic; "
+                "assumption: no candidate numerator of a line parameter in (0, 2*SMALL_TOLERANCE))",
+                "segment_set, points_polygon, segments_polygon, segment_overlap_segment_set "
                 "(closest-feature case splits over several nested square roots; polygon routines use shapely-free but "
                 "rotation-based projections, see DESIGN.md 10.5)", "pointset (scipy cdist, compiled)"],
 }
@@ -34,7 +36,26 @@ def shards(tier, seed):
     for nd in (2, 3):
         for ns in (1, 2, 3):
             out.append({"kind": "point_pointset", "nd": nd, "ns": ns})
+    # segment - segment-set kernel: directions enumerated (exact dyadic), positions symbolic
+    for k in range(len(SEG_DIRS)):
+        out.append({"kind": "segseg", "dirs": k})
     return out
+
+
+# (direction of the main segment, directions of the set members); the last entries are ill-scaled:
+# a shallow crossing next to a much longer set member, and a short segment crossing a unit segment
+SEG_DIRS = [
+    ([1, 0, 0], [[0, 1, 0]]),
+    ([1, 1, 0], [[1, -1, 1]]),
+    ([2, 0, 0], [[1, 1, 0]]),
+    ([1, 0, 0], [[2, 0, 0]]),
+    ([1, 0, 0], [[-1, 0, 0]]),
+    ([1, 2, -1], [[0.5, 1, -0.5]]),
+    ([1, 0, 0], [[0, 1, 0], [1, 1, 1]]),
+    ([1, 0, 0], [[1, 2 ** -7, 0], [128, 0, 1]]),
+    ([1, 0, 0], [[2 ** -10, 2 ** -14, 0]]),
+    ([64, 0, 0], [[1, 2 ** -6, 0]]),
+]
 
 
 def configure(cfg, tier):
@@ -55,13 +76,15 @@ def _sq(v):
 def harness(ctx, shard):
     import porepy as pp
 
-    nd = shard["nd"]
+    nd = shard.get("nd", 3)
     inputs = {"shard": shard}
 
     def case(conc):
         c = conc(inputs)
         return {k: (v if k == "shard" else np.asarray(v, dtype=float).tolist()) for k, v in c.items()}
 
+    if shard["kind"] == "segseg":
+        return _segseg_harness(ctx, shard)
     if shard["kind"] == "point_pointset":
         ns = shard["ns"]
         p = [ctx.real(f"p{d}", -2, 2) for d in range(nd)]
@@ -128,8 +151,98 @@ def harness(ctx, shard):
         ctx.sample({"shard": shard, "path": ctx.idx})
 
 
+def _fr(x):
+    import fractions
+    return fractions.Fraction(x)
+
+
+def _segseg_tolerance(d1, D2):
+    """SMALL_TOLERANCE of segment_segment_set as the code computes it (float arithmetic on the concrete directions)."""
+    d1 = np.array(d1, dtype=float)
+    D2 = np.array(D2, dtype=float).T
+    return float(1e-8 * np.minimum((d1 * d1).sum(), np.min((D2 * D2).sum(axis=0))))
+
+
+def _segseg_harness(ctx, shard):
+    import porepy as pp
+
+    d1f, D2f = SEG_DIRS[shard["dirs"]]
+    ns = len(D2f)
+    inputs = {"shard": shard}
+
+    def case(conc):
+        c = conc(inputs)
+        return {k: (v if k == "shard" else np.asarray(v, dtype=float).tolist()) for k, v in c.items()}
+
+    a = [ctx.real(f"a{d}", -2, 2) for d in range(3)]
+    B = [[ctx.real(f"b{d}_{j}", -2, 2) for j in range(ns)] for d in range(3)]
+    inputs.update(a=a, B=B)
+    start = np.empty((3, 1), dtype=object)
+    end = np.empty((3, 1), dtype=object)
+    S = np.empty((3, ns), dtype=object)
+    E = np.empty((3, ns), dtype=object)
+    for d in range(3):
+        start[d, 0] = a[d]
+        end[d, 0] = a[d] + float(d1f[d])
+        for j in range(ns):
+            S[d, j] = B[d][j]
+            E[d, j] = B[d][j] + float(D2f[j][d])
+    tol = rv(_fr(_segseg_tolerance(d1f, D2f)))
+    d1 = [rv(_fr(x)) for x in d1f]
+    # stated assumption: none of the candidate numerators of the two line parameters lies in the open
+    # interval (0, 2 * SMALL_TOLERANCE), where the code snaps the parameter to 0 on purpose
+    for j in range(ns):
+        d2 = [rv(_fr(x)) for x in D2f[j]]
+        w0 = [lift(a[d]) - lift(B[d][j]) for d in range(3)]
+        d11, d12, d22 = _dotc(d1, d1), _dotc(d1, d2), _dotc(d2, d2)
+        d1s = z3.Sum([x * y for x, y in zip(d1, w0)])
+        d2s = z3.Sum([x * y for x, y in zip(d2, w0)])
+        for X in (d12 * d2s - d22 * d1s, d11 * d2s - d12 * d1s, -d1s, -d1s + d12, d2s, d12 + d2s):
+            ctx.assume(z3.Or(X <= 0, X >= 2 * tol))   # factor 2: float vs exact product in the tolerance
+    dist, cp1, cp2 = pp.distances.segment_segment_set(start.view(SymArr), end.view(SymArr), S.view(SymArr), E.view(SymArr))
+    dist, cp1, cp2 = (np.asarray(x, dtype=object) for x in (dist, cp1, cp2))
+    ok = dist.shape == (ns,) and cp1.shape == (3, ns) and cp2.shape == (3, ns)
+    ctx.check("result-shape", ok, case)
+    if ok:
+        for j in range(ns):
+            d2 = [rv(_fr(x)) for x in D2f[j]]
+            c1 = [lift(cp1[d, j]) for d in range(3)]
+            c2 = [lift(cp2[d, j]) for d in range(3)]
+            w = [x - y for x, y in zip(c1, c2)]
+            ctx.check("distance-is-euclidean-distance-between-the-closest-points",
+                      z3.And(lift(dist[j]) >= 0, lift(dist[j]) * lift(dist[j]) == _sq(w)), case)
+            # closest points lie on their segments: c1 = a + s d1, c2 = b + t d2 with s, t in [0, 1]
+            sv, tv = ctx.fresh_real("s"), ctx.fresh_real("t")
+            on1 = z3.And(*[c1[d] == lift(a[d]) + lift(sv) * d1[d] for d in range(3)])
+            on2 = z3.And(*[c2[d] == lift(B[d][j]) + lift(tv) * d2[d] for d in range(3)])
+            u1 = [c1[d] - lift(a[d]) for d in range(3)]
+            u2 = [c2[d] - lift(B[d][j]) for d in range(3)]
+            s_num, t_num = z3.Sum([x * y for x, y in zip(u1, d1)]), z3.Sum([x * y for x, y in zip(u2, d2)])
+            d11, d22 = _dotc(d1, d1), _dotc(d2, d2)
+            col1 = z3.And(*[u1[d] * d11 == s_num * d1[d] for d in range(3)])
+            col2 = z3.And(*[u2[d] * d22 == t_num * d2[d] for d in range(3)])
+            ctx.check("closest-points-lie-on-the-segments",
+                      z3.And(col1, col2, s_num >= 0, s_num <= d11, t_num >= 0, t_num <= d22), case)
+            # optimality (KKT conditions of the convex problem min |a + s d1 - b - t d2|^2 over [0,1]^2):
+            # g_s = d1.w >= 0 unless s > 0, <= 0 unless s < 1; g_t = -d2.w likewise
+            gs = z3.Sum([x * y for x, y in zip(d1, w)])
+            gt = -z3.Sum([x * y for x, y in zip(d2, w)])
+            ctx.check("no-pair-of-points-is-closer",
+                      z3.And(z3.Or(s_num <= 0, gs <= 0), z3.Or(s_num >= d11, gs >= 0),
+                             z3.Or(t_num <= 0, gt <= 0), z3.Or(t_num >= d22, gt >= 0)), case)
+    m = ctx.reach("end")
+    if m is not None and ctx.rep.paths % 2 == 0:
+        ctx.validate_replay("float-run", case, model=m)
+    if ctx.idx < 2:
+        ctx.sample({"shard": shard, "path": ctx.idx})
+
+
+def _dotc(u, v):
+    return z3.simplify(z3.Sum([x * y for x, y in zip(u, v)]))
+
+
 def run_shard(ex, shard):
-    ex.run(harness, label=str(shard), args=(shard,))
+    ex.run(harness, label=str(shard), args=(shard,), max_paths=2000 if shard["kind"] == "segseg" else None)
 
 
 # ---------------------------------------------------------------- real-code side
@@ -143,6 +256,30 @@ def replay_case(case):
     import porepy as pp
 
     shard = case["shard"]
+    if shard["kind"] == "segseg":
+        d1f, D2f = SEG_DIRS[shard["dirs"]]
+        a = np.array(case["a"], dtype=float).reshape((3, 1))
+        B = np.array(case["B"], dtype=float).reshape((3, -1))
+        d1 = np.array(d1f, dtype=float).reshape((3, 1))
+        D2 = np.array(D2f, dtype=float).T
+        dist, cp1, cp2 = pp.distances.segment_segment_set(a, a + d1, B, B + D2)
+        ts = np.linspace(0, 1, 401)
+        problems = []
+        for j in range(B.shape[1]):
+            P = a + d1 * ts                                   # 3 x n
+            Q = B[:, [j]] + D2[:, [j]] * ts
+            true = np.sqrt(((P[:, :, None] - Q[:, None, :]) ** 2).sum(axis=0)).min()
+            if abs(dist[j] - np.linalg.norm(cp1[:, j] - cp2[:, j])) > 1e-9:
+                problems.append(f"[{j}] distance {dist[j]} is not the distance of the returned closest points")
+            if dist[j] > true + 1e-6 * (1 + true):
+                problems.append(f"[{j}] distance {dist[j]} but two points of the segments are at {true}")
+            for c, o, dd in ((cp1[:, j], a[:, 0], d1[:, 0]), (cp2[:, j], B[:, j], D2[:, j])):
+                u = c - o
+                if np.linalg.norm(np.cross(u, dd)) > 1e-9 * (1 + dd @ dd) or not (-1e-9 <= u @ dd <= dd @ dd * (1 + 1e-9)):
+                    problems.append(f"[{j}] closest point {c.tolist()} not on its segment")
+        if problems:
+            return True, f"segment {a.T.tolist()} + {d1f} vs {B.T.tolist()} + {D2f}: {problems[:3]}"
+        return False, "exact"
     if shard["kind"] == "point_pointset":
         p = np.array(case["p"], dtype=float)
         Q = np.array(case["Q"], dtype=float)
